@@ -1209,6 +1209,46 @@ func (g *gen) mixed(n int) {
 	}
 }
 
+// vary appends, for a sample of the ops generated so far, runs  A, A[arg i := B's arg i] (every i), A  with B
+// another op of the same kind: consecutive calls that differ in exactly one argument (and a repetition), which is
+// what a memo keyed by part of the input, or a result cached from the previous call, gets wrong.
+func (g *gen) vary(samples int) {
+	byKind := map[string][]string{}
+	var kinds []string
+	for _, op := range g.ops {
+		f := strings.Fields(op)
+		if len(f) < 3 || strings.Contains(f[0], "@xy") || strings.Contains(f[0], "@zxy") {
+			continue // too few arguments, or a pattern that REQUIRES two arguments to be equal
+		}
+		k := f[0] + "/" + strconv.Itoa(len(f))
+		if _, ok := byKind[k]; !ok {
+			kinds = append(kinds, k)
+		}
+		byKind[k] = append(byKind[k], op)
+	}
+	if len(kinds) == 0 {
+		return
+	}
+	for n := 0; n < samples; n++ {
+		l := byKind[kinds[g.r.intn(len(kinds))]]
+		if len(l) < 2 {
+			continue
+		}
+		a := strings.Fields(l[g.r.intn(len(l))])
+		b := strings.Fields(l[g.r.intn(len(l))])
+		g.add(strings.Join(a, " "))
+		for i := 1; i < len(a); i++ {
+			if a[i] == b[i] {
+				continue
+			}
+			v := append([]string{}, a...)
+			v[i] = b[i]
+			g.add(strings.Join(v, " "))
+			g.add(strings.Join(a, " "))
+		}
+	}
+}
+
 func generate(prop string, thor bool, seed uint64) []string {
 	g := &gen{r: &rng{s: seed*0x9e3779b97f4a7c15 + uint64(len(prop))*7919 + hashStr(prop)}, thor: thor}
 	switch prop {
@@ -1257,6 +1297,9 @@ func generate(prop string, thor bool, seed uint64) []string {
 		g.hashes()
 	default:
 		panic("unknown property " + prop)
+	}
+	if prop != "C17" && prop != "C05" && prop != "C09" && prop != "C11" {
+		g.vary(g.n(40, 400))
 	}
 	return g.ops
 }
